@@ -787,7 +787,7 @@ fn run_program(p: &Program) {
         panic!("{}", m);
     }
     if ghost_panic {
-        panic!("C06,C05: the deallocation of the buffer races with an earlier use on another thread (ghost cell causality violation at the free)");
+        panic!("C06,C05,C03: the deallocation of the buffer races with an earlier use on another thread: it is released before the last view is gone in the happens-before order (ghost cell causality violation at the free)");
     }
     if dfree > 0 {
         panic!("C05,C02,C03: a block was freed twice ({} double frees)", dfree);
